@@ -210,12 +210,20 @@ def run_dir1(case, wd: Path):
         problems.append((what, kind))
 
     objects = dict(backend.objects)
+    try:
+        _read_dir1(case, settings, encrypted, password, objects, key_bytes, expected, bad, obs)
+    except refcodec.FormatError as e:
+        bad(f'repository does not decode under the documented scheme: {e}', 'decode')
+    return problems, obs
+
+
+def _read_dir1(case, settings, encrypted, password, objects, key_bytes, expected, bad, obs):
     # ---- config and key file
     try:
         rd = refcodec.Reader(objects, key_bytes, password)
     except refcodec.FormatError as e:
         bad(f'config / key file do not decode under the documented scheme: {e}', 'config_or_key')
-        return problems, obs
+        return
     cfg = rd.config
     if _has_tagged(refcodec.loads_raw(objects['config'])):
         bad('config carries byte strings', 'config_or_key')
@@ -357,7 +365,6 @@ def run_dir1(case, wd: Path):
     if extra:
         bad(f'{len(extra)} chunk object(s) at locations that are not the documented function of any table digest', 'chunk_name')
     obs['nchunks'] = len(referenced)
-    return problems, obs
 
 
 # --------------------------------------------------------------------------- direction 2
